@@ -520,3 +520,15 @@ Lemma literal_tokens_instance : forall l,
   gen_view (PLit l) = lit_token_view lit_display l /\ gen_string (PLit l) = lit_token_string lit_display l
   /\ lit_into_view l = lw_into_view lit_display l.
 Proof. intros l. repeat split; reflexivity. Qed.
+
+(** ** components with attributes: when both back-ends print attribute values with one function they agree *)
+Lemma attrs_agree : forall (show_attr : str -> str) vars comps v,
+  let e := env_with_attrs show_attr vars comps in
+  eval_view e (gen_view v) = render e (pieces v)
+  /\ eval_string e (gen_string v) = render e (pieces v)
+  /\ eval_display e (gen_display v) = render e (pieces v)
+  /\ (forall k, e_open e k = open_tag show_attr (fst (comps k)) (snd (comps k))).
+Proof.
+  intros show_attr vars comps v e. unfold eval_display, gen_display.
+  rewrite gen_view_renders, gen_string_renders. repeat split; reflexivity.
+Qed.
